@@ -33,6 +33,9 @@ type c01Order struct {
 	Seed    uint64 `json:"seed"`
 	ClockS  int64  `json:"clock_offset_s"`
 	CatchUp bool   `json:"catch_up"`
+	// Deliver != 0: the completion order of concurrently outstanding upstream
+	// requests (the daemon's parallel entry fetches) is a seeded permutation.
+	Deliver uint64 `json:"deliver,omitempty"`
 }
 
 type checkC01 struct{}
@@ -42,7 +45,7 @@ func init() { Register(checkC01{}) }
 func (checkC01) ID() string    { return "C01" }
 func (checkC01) Level() string { return "exploration" }
 func (checkC01) Rule() string {
-	return "worlds rich in exact ties (equal stakes at snapshots incl. the top stake, equal PEG requests, identical oracle price vectors, several coinbase recipients per block); each world is replayed by a canonical replica and by replicas with descending / seeded map iteration order, permuted sort ties, shifted wall clock and catch-up sync; distinct = distinct (world, order seed) pairs whose run contained at least one exact tie at a snapshot or in the PEG bank; the instrumenter reports every map-range and sort.Slice site it put behind the seam"
+	return "worlds rich in exact ties (equal stakes at snapshots incl. the top stake, equal PEG requests, identical oracle price vectors, several coinbase recipients per block); each world is replayed by a canonical replica and by replicas with descending / seeded map iteration order, permuted sort ties, shifted wall clock, catch-up sync and (half of the seeded ones) a seeded completion order of the daemon's parallel upstream requests; distinct = distinct (world, order seed) pairs whose run contained at least one exact tie at a snapshot or in the PEG bank; the instrumenter reports every map-range and sort.Slice site it put behind the seam"
 }
 
 // tieMaker creates several addresses with identical holdings.
@@ -175,6 +178,9 @@ func (checkC01) Gen(seed uint64, tier string) (*Scenario, error) {
 	}
 	for i := 0; i < k; i++ {
 		plan.Orders = append(plan.Orders, c01Order{Mode: 2, Seed: rng.Uint64() >> 1, ClockS: int64(rng.Intn(1000000)), CatchUp: rng.Intn(3) == 0})
+		if rng.Intn(2) == 0 {
+			plan.Orders[len(plan.Orders)-1].Deliver = rng.Uint64()>>1 | 1
+		}
 	}
 	pb, _ := json.Marshal(plan)
 	return &Scenario{Profile: &p, Spec: g.B.W.Spec, Plan: pb}, nil
@@ -254,6 +260,10 @@ func (checkC01) Run(env *Env, sc *Scenario) (*Violation, error) {
 					}
 				}
 			}
+			if o.Deliver != 0 {
+				drng := rand.New(rand.NewSource(int64(o.Deliver)))
+				r.Tr.Deliver = func(n int) int { return drng.Intn(n) }
+			}
 			if err := r.Start(); err != nil {
 				rerr = err
 				return
@@ -263,6 +273,12 @@ func (checkC01) Run(env *Env, sc *Scenario) (*Violation, error) {
 			env.Stats.Fault(fmt.Sprintf("iteration_order_mode_%d", o.Mode), 1)
 			ok := r.RunTo(w.Tip())
 			env.Stats.Blocks += r.Commits
+			if o.Deliver != 0 {
+				env.Stats.Fault("fetch_completion_order_permuted", r.Tr.Delivered)
+				if r.Tr.MaxInFlight > 1 {
+					env.Stats.Probe(fmt.Sprintf("parallel_fetches_in_flight_%d", r.Tr.MaxInFlight))
+				}
+			}
 			exit := r.Exit
 			r.Stop()
 			if len(tieAt) > 0 {
